@@ -390,7 +390,8 @@ fn scenario(seed: u64, rep: &Report, dedicated: bool) -> Result<(), String> {
                 &{
                     let code = r.reply.split('[').nth(1).and_then(|x| x.split(' ').next()).unwrap_or("none").to_string();
                     let multi = r.op.ends_with("_in_one_batch");
-                    if cache == 1 && multi {
+                    let _ = multi;
+                    if cache == 1 {
                         // a one-entry cache cannot hold the statements of one batch: the failure shows
                         // as 42P05, 26000 or the pooler's own "does not exist", depending on timing
                         format!("C08|execute_reply_wrong|op={}|cache_size_class=1|error=any", r.op)
